@@ -666,9 +666,13 @@ def run(chk):
     for _ in range(2000):
         classes.add(classify(bad_lines(r0, 3, "/w"), 3).rstrip("0123456789"))
     chk.count("catalogue-classes", len(classes))
-    for entry in common.load_corpus(PROP):
+    for fn, entry in common.load_corpus(PROP):
         if entry.get("part") == "A":
             check_sessions(chk, [one_session((entry["seed"], entry["cores"], entry["nreq"]))])
+        elif entry.get("part") == "B":
+            res = chaos((entry["seed"], entry["nadv"], entry["ntask"]))
+            if res["problems"]:
+                chk.violation({"kind": "chaos", "corpus": fn}, dict(entry, problems=res["problems"][:10], what="under misbehaving clients: " + res["problems"][0]))
         chk.count("corpus")
     nA = 240 if quick else 4000
     args = [(base + i, 0 if i % 2 else 64, chk.rng.randint(20, 60) if quick else chk.rng.randint(40, 200)) for i in range(nA)]
